@@ -2,9 +2,27 @@ import NemoVerif.Drive.Common
 import NemoVerif.Models.SlideGraph
 import NemoVerif.Models.ErrContain
 import NemoVerif.Models.RoundMachine
+import NemoVerif.Models.ErrReport
 
 namespace NemoVerif.Drive.C10
 open Lean NemoVerif NemoVerif.Drive NemoVerif.SlideGraph NemoVerif.ErrContain NemoVerif.RoundMachine
+
+def strOfJson (j : Json) : Except String ErrReport.Str := do
+  let a ← j.getArr?
+  let ns ← a.toList.mapM (·.getNat?)
+  pure (ns.map Char.ofNat)
+
+def strToJson (s : ErrReport.Str) : Json := Json.arr (s.map fun c => Json.num (JsonNumber.fromNat c.toNat)).toArray
+
+def segOfJson (j : Json) : Except String ErrReport.Seg := do
+  let a ← j.getArr?
+  if h : a.size ≥ 1 then
+    match ← a[0].getStr? with
+    | "lit" => do let s ← strOfJson (a.getD 1 (Json.arr #[])); pure (.lit s)
+    | "esc" => pure .esc
+    | "raw" => pure .raw
+    | _ => pure .safe
+  else throw "bad seg"
 
 def optNat (j : Json) : Except String (Option Nat) :=
   match j with
@@ -186,6 +204,29 @@ def handle (op : String) (j : Json) : Except String Json := do
           | .ok n => Json.num (JsonNumber.fromNat n)
           | .error e => .str e)]
     pure (Json.mkObj [("ranked", .bool ranked), ("rounds", Json.arr res.toArray)])
+  | "escape" =>
+    -- the string model of the error-report loop (Models/ErrReport.lean) on concrete texts / handler templates
+    let texts ← (← (← j.getObjVal? "texts").getArr?).toList.mapM strOfJson
+    let tpls ← match j.getObjVal? "templates" with
+      | .ok (.arr a) => a.toList.mapM fun t => do
+          let d ← (← t.getObjVal? "delim").getNat?
+          let segs ← (← (← t.getObjVal? "segs").getArr?).toList.mapM segOfJson
+          pure (Char.ofNat d, segs)
+      | _ => pure []
+    let pre := "P: ".toList
+    let post := " :Q".toList
+    let one (t : ErrReport.Str) : Json :=
+      let tplE : List ErrReport.Seg := [.lit pre, .esc, .lit post]
+      let tplR : List ErrReport.Seg := [.lit pre, .raw, .lit post]
+      Json.mkObj [("escape", strToJson (ErrReport.escapeStr t)), ("escape_asis", strToJson (ErrReport.escapeAsIs t)),
+        ("special", strToJson (ErrReport.escSpecial t)),
+        ("esc_dq", .bool (ErrReport.validLit '"' (ErrReport.render (fun _ => t) (fun _ => ['T']) tplE))),
+        ("esc_sq", .bool (ErrReport.validLit '\'' (ErrReport.render (fun _ => t) (fun _ => ['T']) tplE))),
+        ("esc_dq_asis", .bool (ErrReport.validLit '"' (ErrReport.renderAsIs (fun _ => t) (fun _ => ['T']) tplE))),
+        ("raw_dq", .bool (ErrReport.validLit '"' (ErrReport.render (fun _ => t) (fun _ => ['T']) tplR))),
+        ("raw_sq", .bool (ErrReport.validLit '\'' (ErrReport.render (fun _ => t) (fun _ => ['T']) tplR)))]
+    pure (Json.mkObj [("texts", Json.arr (texts.map one).toArray),
+      ("templates", Json.arr (tpls.map fun (d, segs) => Json.mkObj [("total", .bool (ErrReport.tplTotal d segs))]).toArray)])
   | _ => throw s!"unknown op C10.{op}"
 
 end NemoVerif.Drive.C10
